@@ -170,9 +170,9 @@ func (f *OrefaFile) Read(b []byte) (n int, err error) {
 		return 0, fs.ErrInvalid
 	}
 
-	avfs.VerifBeforeLock(&f.mu, false)
-	f.mu.RLock()
-	defer f.mu.RUnlock()
+	avfs.VerifBeforeLock(&f.mu, true)
+	f.mu.Lock()
+	defer f.mu.Unlock()
 
 	if f.name == "" {
 		return 0, fs.ErrInvalid
@@ -284,9 +284,9 @@ func (f *OrefaFile) ReadDir(n int) ([]fs.DirEntry, error) {
 		return nil, fs.ErrInvalid
 	}
 
-	avfs.VerifBeforeLock(&f.mu, false)
-	f.mu.RLock()
-	defer f.mu.RUnlock()
+	avfs.VerifBeforeLock(&f.mu, true)
+	f.mu.Lock()
+	defer f.mu.Unlock()
 
 	if f.name == "" {
 		return nil, fs.ErrInvalid
@@ -363,9 +363,9 @@ func (f *OrefaFile) Readdirnames(n int) (names []string, err error) {
 		return nil, fs.ErrInvalid
 	}
 
-	avfs.VerifBeforeLock(&f.mu, false)
-	f.mu.RLock()
-	defer f.mu.RUnlock()
+	avfs.VerifBeforeLock(&f.mu, true)
+	f.mu.Lock()
+	defer f.mu.Unlock()
 
 	if f.name == "" {
 		return nil, fs.ErrInvalid
@@ -615,9 +615,9 @@ func (f *OrefaFile) Write(b []byte) (n int, err error) {
 		return 0, fs.ErrInvalid
 	}
 
-	avfs.VerifBeforeLock(&f.mu, false)
-	f.mu.RLock()
-	defer f.mu.RUnlock()
+	avfs.VerifBeforeLock(&f.mu, true)
+	f.mu.Lock()
+	defer f.mu.Unlock()
 
 	if f.name == "" {
 		return 0, fs.ErrInvalid
